@@ -87,7 +87,7 @@ def run_case(case, ctx):
         rng = np.random.default_rng([case["dseed"], 88])
         y = zoo.make_series(rng, case["n"], positive=True, off=case["off"], kind=case["series"], integer=case["dseed"] % 5 == 0)
         # exogenous data go along for the base forecasters that accept them (they ignore the values; the folds must not change)
-        X = pd.DataFrame({"x0": np.arange(len(y)) * 0.5, "x1": rng.normal(0, 1, len(y))}, index=y.index) if (case["base"] in (0, 1, 2) and case["dseed"] % 3 == 0) else None
+        X = pd.DataFrame({"x1": np.arange(len(y)) * 0.5, "x0": rng.normal(0, 1, len(y))}, index=y.index) if (case["base"] in (0, 1, 2) and case["dseed"] % 3 == 0) else None
         if X is not None:
             ctx.tag("with-exogenous-data")
         cv = zoo.build_cv(case["cv"])
@@ -162,7 +162,9 @@ def run_case(case, ctx):
         finally:
             spies.drop(lid2)
         # ---- direction / bookkeeping ----------------------------------------------------------------
-        gib = bool(metric.greater_is_better)
+        gib = case["scoring"] in zoo.GREATER_IS_BETTER        # the direction the metric was declared with, not what the object reports
+        ctx.check("best.direction", bool(metric.greater_is_better) == gib, "tune:scorer-reports-another-direction-than-declared",
+                  "the scoring object does not report the direction it was declared with", reported=bool(metric.greater_is_better), declared=gib, metric=metric.name)
         scores = [float(v) for v in res[col]]
         best_val = max(scores) if gib else min(scores)
         bi = int(tuner.best_index_)
